@@ -183,6 +183,27 @@ def separation_length(plan):
     return f"{[x[2][0] for x in plan if x[2][0] in ('partition', 'stall')][0]}-of-{end[0] - begin[0]}-rounds"
 
 
+def distribution_schedule(src, n, closing, configs, fences, failures=('CONTINUE',)):
+    """a real start sequence is pending (real rules file; the supervisords answer late) while two crashes / restarts
+    happen: the Master, the target of the request or a bystander - also an instance that comes back and is CHECKED but
+    not activated while the DISTRIBUTION lasts; the proxy threads may be scheduled as soon as a request is queued"""
+    target = src.pick_int('target', 0, n - 1)
+    rules = ('<root><application name="app"><start_sequence>1</start_sequence><programs><program name="p1">'
+             f'<identifiers>10.0.0.{target + 1}:25000</identifiers><start_sequence>1</start_sequence>'
+             '</program></programs></application></root>')
+    release = src.pick('supervisords_answer_at_round', [4, 7])
+    kinds = [(w, i, None) for i in range(n) for w in ('crash', 'restart')]
+
+    def plan_fn(src):
+        return [(src.pick_int('fault0_round', 3, 4), src.pick_int('fault0_pos', 0, n - 1),
+                 src.pick('fault0_kind', kinds)),
+                (src.pick_int('fault1_round', 4, 5), 0, src.pick('fault1_kind', kinds))]
+    cl, cfg, plan, senders, traces = run_schedule(src, n=n, rounds=8, closing=closing, configs=configs,
+                                                  fences=fences, failures=failures, plan_fn=plan_fn,
+                                                  rules=rules, release_at=release, eager=(False, True))
+    return cl, cfg, plan, senders, traces, 'distribution:' + '+'.join(k[0] for _, _, k in plan)
+
+
 def groups(cl, skipped=None):
     """sets of live instances that can all reach one another and have not isolated one another.
 
